@@ -754,6 +754,74 @@ Theorem line_convert_sound_script : forall dbg be sx s ls c0 rs evs cf,
   ConvertLineSim.ev_match2 (ConvertLine.cl_files cf) (ConvertLineSim.mtomb (ConvertLine.sh_h s)) 0 false false evs rs.
 Proof. exact ConvertLineSim.convert_events_sound_all. Qed.
 
+(* ---- clause (2), first half: convert() and C13.
+   line_convert_is_replay: ConvertLineProgram::convert = the read_row iteration replayed through the writer API
+   (set_address / generate_row / end_sequence) — read_row does not depend on the writer calls made in between
+   (Proofs/ConvertLineReplay.v read_loop_reprog); line_convert_replay_is_script: with the identity address conversion
+   that replay is C13's apply_rops on the script script_of(events); line_convert_emits_meaning: composed with C13's
+   script_correct — for a fresh program, if the iteration ends normally and the script satisfies C13's script_ok (it
+   fails exactly in the VLIW / advance-overflow known-finding classes), convert() does not panic, returns Ok or
+   MissingLineEndSequence, and the emitted instructions run on the DWARF state machine (Spec/LineAdvSpec) give exactly
+   C13's meaning of the event script — which line_convert_sound_script relates to the reader's rows of the source.
+   STILL MISSING for the end-to-end line_convert_sound: (a) script_ok is a hypothesis here, not derived from hdr_ok
+   and max_ops = 1; (b) the byte level (LineWr.write / parse_header, C13's program_roundtrip_v2_v4/_v5 with its table
+   hypotheses and define_file interleaving); (c) the equality can only hold modulo the non-address registers of
+   end_sequence rows (end_sequence re-emits the previous row's registers). *)
+Require GV.Proofs.ConvertLineReplay GV.Proofs.LineWrSeqProofs.
+
+Theorem line_convert_is_replay : forall dbg be sx h caddr c,
+  ConvertLine.convert dbg be sx h caddr c =
+  let '(evs, s, cf) := ConvertLine.events dbg be sx h c in
+  match ConvertLineReplay.replay dbg caddr (ConvertLine.cl_prog c) evs with
+  | Ok q' => match s with
+             | LineRd.SEnd => if LineWr.p_in_seq q' then Err CMissingLineEndSequence
+                              else Ok (ConvertLineReplay.reprog q' cf)
+             | LineRd.SErr e => Err e | LineRd.SPanic => Panic | LineRd.SFuel => OutOfFuel
+             end
+  | Err e => Err e | Panic => Panic | OutOfFuel => OutOfFuel
+  end.
+Proof. exact ConvertLineReplay.convert_is_replay. Qed.
+
+Theorem line_convert_replay_is_script : forall dbg evs q,
+  ConvertLineReplay.replay dbg (fun a => Some (LineWr.AConst a)) q evs =
+  LineWrSeqProofs.apply_rops dbg q (ConvertLineReplay.script_of (LineWr.w_op_index (LineWr.p_row q)) evs).
+Proof. exact ConvertLineReplay.replay_is_script. Qed.
+
+Theorem line_convert_emits_meaning : forall dbg be sx h c evs cf,
+  let p := ConvertLine.cl_prog c in
+  LineWr.p_insns p = [] -> LineWr.p_prev p = LineWr.wrow_initial (LineWr.p_enc p) (LineWr.p_lenc p) ->
+  LineWr.p_row p = LineWr.wrow_initial (LineWr.p_enc p) (LineWr.p_lenc p) -> LineWr.p_in_seq p = false ->
+  LineWrProofs.enc_ok (LineWr.p_lenc p) -> (LineWr.e_version (LineWr.p_enc p) <= 5)%N ->
+  ConvertLine.events dbg be sx h c = (evs, LineRd.SEnd, cf) ->
+  LineWrSeqProofs.script_ok (LineWr.p_enc p) (LineWr.p_lenc p)
+    (LineWr.wrow_initial (LineWr.p_enc p) (LineWr.p_lenc p)) false (ConvertLineReplay.script_of 0 evs) ->
+  exists q',
+    ConvertLine.convert dbg be sx h (fun a => Some (LineWr.AConst a)) c =
+      (if LineWr.p_in_seq q' then Err CMissingLineEndSequence else Ok (ConvertLineReplay.reprog q' cf)) /\
+    Forall LineWrProofs.special_ok (LineWr.p_insns q') /\
+    LineAdvSpec.rows_of (LineWr.params_of (LineWr.p_lenc p))
+      (map (LineWr.denote (LineWr.e_version (LineWr.p_enc p))) (LineWr.p_insns q')) =
+      fst (LineWrSeqProofs.meaning (LineWr.e_version (LineWr.p_enc p)) (LineWr.params_of (LineWr.p_lenc p))
+             (LineAdvSpec.init_regs (LineWr.params_of (LineWr.p_lenc p)), 0%N) (ConvertLineReplay.script_of 0 evs)).
+Proof. exact ConvertLineReplay.convert_emits_meaning. Qed.
+
+(* every hypothesis of line_convert_emits_meaning holds for the state ConvertLineProgram::new returns on the
+   two-sequence witness program (script_ok included) *)
+Example line_convert_emits_meaning_hyps : forall dbg,
+  match ConvertLineReplay.plain_c0 dbg with
+  | Some c0 =>
+      let p := ConvertLine.cl_prog c0 in
+      LineWr.p_insns p = [] /\ LineWr.p_prev p = LineWr.wrow_initial (LineWr.p_enc p) (LineWr.p_lenc p) /\
+      LineWr.p_row p = LineWr.wrow_initial (LineWr.p_enc p) (LineWr.p_lenc p) /\
+      LineWr.p_in_seq p = false /\ LineWrProofs.enc_ok (LineWr.p_lenc p) /\ (LineWr.e_version (LineWr.p_enc p) <= 5)%N /\
+      snd (fst (ConvertLine.events dbg true ConvertLineProofs.wit_sx ConvertLineSim.wit_plain c0)) = LineRd.SEnd /\
+      LineWrSeqProofs.script_ok (LineWr.p_enc p) (LineWr.p_lenc p)
+        (LineWr.wrow_initial (LineWr.p_enc p) (LineWr.p_lenc p)) false
+        (ConvertLineReplay.script_of 0 (fst (fst (ConvertLine.events dbg true ConvertLineProofs.wit_sx ConvertLineSim.wit_plain c0))))
+  | None => False
+  end.
+Proof. exact ConvertLineReplay.plain_script_ok. Qed.
+
 (* tombstone operands on the model: -1 is dropped by both sides (inside the theorem's class); -2 is dropped by the
    reader and kept by the converter (outside); an empty -2 sequence leaves a lone EndSequence *)
 Theorem line_convert_tombstone_witnesses : forall dbg,
@@ -815,3 +883,4 @@ Check line_convert_define_file_safe.
 Check line_convert_sound_script_partial. Check line_convert_plain_class.
 Check line_convert_tombstone_witnesses.
 Check line_convert_sound_script.
+Check line_convert_is_replay. Check line_convert_replay_is_script. Check line_convert_emits_meaning.
